@@ -7,6 +7,7 @@ import numpy as np
 
 from ..vlib import tlc, util
 from ..vlib.report import MachineryError, Report
+from . import c13  # noqa: E402  (position_forms)
 
 util.ensure_repo_importable()
 from strengths import (RDGridSpace, RDGraphSpace, RDGraphSpaceNode, RDNetwork, RDSystem, RDTrajectory, Species, UnitArray,
@@ -72,11 +73,11 @@ def _accessor_case(rep, rng, ns, S, N, kind):
                         break
                     for c in range(N):
                         want = float(n * S * N + s * N + c)
-                        pos = [c]
+                        pos = [c, np.int64(c)]
                         if dims:
                             w, h, d = dims
                             xyz = (c % w, (c % (w * h)) // w, c // (w * h))
-                            pos += [xyz, P(*xyz)]
+                            pos = list(c13.position_forms(xyz[0], xyz[1], xyz[2], w, h).values())
                         for p in pos:
                             sp = forms[(c + n) % 3]
                             v = tr.get_trajectory_point(sp, n, p)
@@ -92,9 +93,17 @@ def _accessor_case(rep, rng, ns, S, N, kind):
             if not bad:
                 for s in range(S):
                     for c in range(N):
-                        col = tr.get_trajectory(labels[s], position=c)
-                        if [float(v) for v in col.value] != [float(n * S * N + s * N + c) for n in range(ns)]:
-                            bad = ("get_trajectory", None, s, c)
+                        pos = {"index": c, "index-np.int64": np.int64(c)}
+                        if dims:
+                            w, h, d = dims
+                            pos = c13.position_forms(c % w, (c % (w * h)) // w, c // (w * h), w, h)
+                        for form, p in pos.items():
+                            col = tr.get_trajectory([labels[s], s, system.network.species[s]][(c + len(form)) % 3], position=p)
+                            if np.shape(col.value) != (ns,) or [float(v) for v in col.value] != [float(n * S * N + s * N + c) for n in range(ns)] \
+                                    or str(col.units) != str(data.units):
+                                bad = ("get_trajectory:position-as-" + form.split("-")[0], None, s, c)
+                                break
+                        if bad:
                             break
                     m = tr.get_trajectory(s, merge=True)
                     want = [float(sum(n * S * N + s * N + c for c in range(N))) for n in range(ns)]
